@@ -305,9 +305,9 @@ fn build_cases() -> Vec<Case> {
                     let first = b.replace('@', s1);
                     let second = b.replace('@', s2).replace("r :=", "r2 :=").replace("..r]", "..r2]").replace("..r}", "..r2}").replace("r +=", "r2 +=");
                     let probe = if name == "keep" {
-                        "print(r === keep)\nprint(r2 === keep)\nprint(r === r2)\nprint(keep)\nprint(r)\nprint(r2)\nfor [i, e] in r {\nif e->type() == \"list\" {\ne[0] = 7\n}\n}\nprint(keep)\nprint(r2)\nr2 += [5]\nprint(r)\nprint(keep)\n"
+                        "print(r === keep)\nprint(r2 === keep)\nprint(r === r2)\nprint(r !== r2)\nprint(r !== keep)\nprint(keep)\nprint(r)\nprint(r2)\nfor [i, e] in r {\nif e->type() == \"list\" {\ne[0] = 7\n}\n}\nprint(keep)\nprint(r2)\nr2 += [5]\nprint(r)\nprint(keep)\n"
                     } else {
-                        "print(r === ok)\nprint(r2 === ok)\nprint(r === r2)\nprint(ok)\nprint(r)\nprint(r2)\nfor [k, e] in r {\nif e->type() == \"list\" {\ne[0] = 7\n}\n}\nprint(ok)\nprint(r2)\nr2.n = 5\nprint(r)\nprint(ok)\n"
+                        "print(r === ok)\nprint(r2 === ok)\nprint(r === r2)\nprint(r !== r2)\nprint(r !== ok)\nprint(ok)\nprint(r)\nprint(r2)\nfor [k, e] in r {\nif e->type() == \"list\" {\ne[0] = 7\n}\n}\nprint(ok)\nprint(r2)\nr2.n = 5\nprint(r)\nprint(ok)\n"
                     };
                     v.push(Case::new(format!("{}{}\n{}\n{}", BUILD_SETUP, first, second, probe), 7, format!("build {} / {}", first.replace('\n', "; "), second.replace('\n', "; "))));
                 }
@@ -330,12 +330,14 @@ fn build_cases() -> Vec<Case> {
             ("for target", "t := [OLD, 1]", "for [_, t[0]] in [z] {\n}", "t[0]"),
             ("nested element", "t := [[OLD]]", "t[0][0] = z", "t[0][0]"),
         ] {
+            // `u` is a second name for the target container, `hold` keeps it in a list
             let src = format!(
-                "{}\nwas := {}\nz := {}\n{}\nprint({} === z)\nprint({} === was)\nprint(t)\n",
+                "{}\nu := t\nhold := [t]\nwas := {}\nz := {}\n{}\nprint({} === z)\nprint({} === was)\nprint({} !== z)\nprint(t)\nprint(u === t)\nprint(hold[0] === t)\nprint(u)\n",
                 setup.replace("OLD", old),
                 read,
                 new,
                 assign,
+                read,
                 read,
                 read
             );
@@ -371,6 +373,8 @@ impl Check for C05 {
                 }
             },
         )?;
+        let tp: Vec<Case> = super::evalorder::THIS_PROGRAMS.iter().enumerate().map(|(i, p)| Case::new(p.to_string(), 8, format!("mutation through `this` reaches the receiver of that call only, program {}", i))).collect();
+        ctx.judge(tp, |c, r, o| self.oracle(c, r, o))?;
         let bc = build_cases();
         let n_build = bc.len();
         ctx.judge(bc, |c, r, o| self.oracle(c, r, o))?;
